@@ -61,9 +61,9 @@ func (s *tstep) resPath() ([]int, bool) {
 }
 
 type treeDriver struct {
-	out    *tlaio.Out
-	c      *Chain
-	perKey map[string]int
+	out     *tlaio.Out
+	c       *Chain
+	perKey  map[string]int
 	dirty   bool
 	abandon bool
 }
@@ -205,7 +205,7 @@ func (d *treeDriver) run(idx int, steps []tstep) error {
 	for i, s := range steps {
 		want := s.resString()
 		switch s.Op {
-		case "propose", "import":
+		case "propose", "import", "importblock":
 			parent := nodes[pk(s.P)]
 			if parent == nil {
 				return fmt.Errorf("behaviour %d step %d: parent %v was never created", idx, i, s.P)
@@ -268,7 +268,18 @@ func (d *treeDriver) run(idx int, steps []tstep) error {
 				}
 				var enc bytes.Buffer
 				enc.ReadFrom(f.Reader())
-				cn, ch, rerr = d.importBytes(enc.Bytes())
+				if s.Op == "importblock" {
+					// the decoded block, as consensus hands it over after assembling the block parts
+					bd, derr := bm.NewBlockDataFromReader(bytes.NewReader(enc.Bytes()))
+					if derr != nil {
+						return fmt.Errorf("behaviour %d step %d: the child block does not decode: %v", idx, i, derr)
+					}
+					ich := make(chan pending, 1)
+					cn, rerr = bm.ImportBlock(bd, 0, func(bc module.BlockCandidate, err error) { ich <- pending{bc, err} })
+					ch = ich
+				} else {
+					cn, ch, rerr = d.importBytes(enc.Bytes())
+				}
 			}
 			if want == "cancelled" {
 				if rerr != nil {
